@@ -47,6 +47,7 @@ from __future__ import absolute_import
 import logging
 logger = logging.getLogger(__name__)
 
+from decimal import Decimal as D
 from itertools import chain
 from spyne.util import six
 
@@ -86,7 +87,7 @@ class JsonEncoder(json.JSONEncoder):
             return list(o)
 
 
-NON_NUMBER_TYPES = tuple({list, dict, six.text_type, six.binary_type})
+NUMBER_TYPES = six.integer_types + (float, D)
 
 
 class JsonDocument(HierDictDocument):
@@ -138,9 +139,14 @@ class JsonDocument(HierDictDocument):
         return value
 
     def _ret_number(self, cls, value):
-        if isinstance(value, NON_NUMBER_TYPES):
-            raise ValidationError(value)
         if isinstance(value, bool):
+            return int(value)
+        if not isinstance(value, NUMBER_TYPES):
+            raise ValidationError(value)
+        if isinstance(value, float) and issubclass(cls, Integer):
+            # is_integer() is False for nan and the infinities as well
+            if not value.is_integer():
+                raise ValidationError(value)
             return int(value)
         return value
 
